@@ -328,6 +328,24 @@ def gate(exe, prop, tier, seed, index, alt, key, shrink=True, variant="plain"):
         return ("ok", gkey, path, detail)
     if r.returncode == 3:
         return ("no-repro", key, None, txt[-300:])
+    if r.returncode not in (0, 2, 3) and ("ERROR: AddressSanitizer" in txt or "CRASH sig=" in txt or "ThreadSanitizer" in txt or r.returncode < 0):
+        # the gate process itself died: the crash happens while the case is being GENERATED (building / loading the base
+        # object of the case), before any fault or damage is applied. Replay = generating that case again.
+        m = re.search(r"ERROR: AddressSanitizer: ([\w-]+)", txt)
+        m2 = re.search(r" in (ezc3d::[\w:~]+)", txt[m.start():]) if m else None
+        m3 = re.search(r"CRASH sig=(\d+) fn=(\S+)", txt)
+        if m:
+            gkey = f"{prop}/crash-while-building-base/asan:{m.group(1)}/{m2.group(1) if m2 else '?'}"
+        elif m3:
+            gkey = f"{prop}/crash-while-building-base/sig{m3.group(1)}/{m3.group(2)}"
+        else:
+            gkey = f"{prop}/crash-while-building-base/exit{r.returncode}"
+        with open(out, "w") as f:
+            f.write(f"gencrash prop={prop} tier={tier} seed={seed} index={index} variant={variant}\n# {gkey}\n# generating this case (a valid history / a valid file being loaded) kills the process:\n# " + txt[-600:].replace("\n", "\n# ") + "\n")
+        r2 = subprocess.run(launcher(variant) + [exe, "gen", "--prop", prop, "--tier", tier, "--seed", str(seed), "--index", str(index)], stdout=subprocess.DEVNULL, stderr=subprocess.DEVNULL, env=env)
+        if r2.returncode == 0:
+            return ("nondeterministic", gkey, None, "crash while generating the case did not reproduce")
+        return ("ok", gkey, out, "process died while building the base object of the case: " + txt[-200:].replace("\n", " "))
     return ("nondeterministic", key, None, txt[-500:])
 
 
@@ -445,7 +463,9 @@ def check(prop, tier):
         if m:
             pre = f"{prop}/crash/sig{m.group(1)}/{m.group(2)}"
         m = re.search(r"ERROR: AddressSanitizer: ([\w-]+)", tail)
-        if m:
+        if m and m.group(1) in ("requested", "allocation-size-too-big", "out-of-memory", "calloc-overflow"):
+            pre = None  # classified by the gate as a heap-budget violation
+        elif m:
             m2 = re.search(r" in (ezc3d::[\w:~]+)", tail[m.start():])
             pre = f"{prop}/crash/asan:{m.group(1)}/{m2.group(1) if m2 else '?'}"
         if pre and pre in seen_crash_keys:
@@ -773,6 +793,14 @@ def main():
         if m19:
             os.environ["VERIF_SEED"] = m19.group(1)
             return check_c19(m19.group(2), only=int(m19.group(3)))
+        mg = re.search(r"^gencrash prop=(\S+) tier=(\S+) seed=(\d+) index=(\d+) variant=(\S+)", txt, re.M)
+        if mg:
+            exe = build(mg.group(5))
+            env = dict(os.environ)
+            env["ASAN_SYMBOLIZER_PATH"] = "/usr/bin/llvm-symbolizer-14"
+            r = subprocess.run(launcher(mg.group(5)) + [exe, "gen", "--prop", mg.group(1), "--tier", mg.group(2), "--seed", mg.group(3), "--index", mg.group(4)], stdout=subprocess.DEVNULL, env=env)
+            print("REPLAY result=" + ("violation (process died while generating the case)" if r.returncode != 0 else "ok"))
+            return 1 if r.returncode != 0 else 0
         m = re.search(r"case prop=(\S+)", txt)
         prop = m.group(1) if m else "C01"
         variant = "plain"
